@@ -153,7 +153,7 @@ func entityInSet(""", """				todo = append(todo, k)
 func entityInSet("""))
 mut("C03", "isin-skips-type", ("internal/eval/evalers.go", """	if lhs.Type != n.is {
 		return types.False, nil
-	}""", """	if lhs.Type != n.is && lhs.ID != "n3" {
+	}""", """	if lhs.Type != n.is && lhs.ID != "y" {
 		return types.False, nil
 	}"""))
 
